@@ -459,6 +459,51 @@ def op_write_rejected(st, o):
     return "write-rejected"
 
 
+@op("mutate_loaded")
+def op_mutate_loaded(st, o):
+    """The caller changes, through the public in-place API, the mesh of a field it got FROM A
+    FILE (translate / scale in place, new subregions, other bc) and drops the field. What the file
+    holds is untouched: every later read of that (or an equal) file still returns the stored state."""
+    obj, fsh = st.f[o["src"]]
+    mesh = obj.mesh
+    how = o["how"]
+    nd = fsh.mesh.region.ndim
+    cell = [float(c) for c in fsh.mesh.cell]
+    if how == "translate":
+        res = sut(mesh.translate, [3 * c for c in cell], inplace=True)
+    elif how == "scale":
+        res = sut(mesh.scale, 2.0, inplace=True)
+    elif how == "subs":
+        pmin = [float(x) for x in fsh.mesh.region.pmin]
+        res = sut(setattr, mesh, "subregions", {"changed": st.df.Region(p1=pmin, p2=[a + c for a, c in zip(pmin, cell)], dims=list(fsh.mesh.region.dims), units=list(fsh.mesh.region.units))} if not fsh.mesh.subs else {})
+    else:
+        dims1 = [d for d in fsh.mesh.region.dims if len(d) == 1]
+        res = sut(setattr, mesh, "bc", "neumann" if fsh.mesh.bc != "neumann" else (dims1[0] if dims1 else ""))
+    del st.f[o["src"]]
+    st.stats.probe("loaded_mesh_changed_by_caller")
+    return "mutated" if not res.raised else "mutation-refused"
+
+
+@op("write_poison")
+def op_write_poison(st, o):
+    """A write that fails MIDWAY (HDF5 refuses a unit with an embedded NUL after the mesh has been
+    written). No property says what the path holds afterwards (removed from the model); what must
+    still work is the next write to that name and its read-back (recovery: progress once faults stop)."""
+    obj, fsh = st.f[o["src"]]
+    rel = o["path"]
+    res = sut(lambda: obj.__class__(obj.mesh, nvdim=obj.nvdim, value=obj.array, unit="A\x00m", vdims=obj.vdims, valid=obj.valid))
+    if res.raised:
+        return "skipped"
+    res = sut(res.v.to_file, st.fs.path(rel))
+    st.stats.fault("failed_write")
+    st.stats.hit("observed/hdf5_write_with_nul_unit:" + ("raised" if res.raised else "accepted"))
+    st.paths.pop(rel, None)
+    if not res.raised:
+        st.fs.delete(rel)
+    st.stats.probe("write_failed_midway")
+    return "write-failed" if res.raised else "accepted-unmodelled"
+
+
 @op("plant_sidecar")
 def op_plant_sidecar(st, o):
     """A subregion side-car from another era or tool lies next to an HDF5 file (the
